@@ -147,6 +147,14 @@ func genLivingCase(prop, tier string, r *rand.Rand) *Case {
 				}
 				break
 			}
+			if r.IntN(3) == 0 {
+				// living: there is a birth date, but nothing a year can be
+				// read from (what exporters write for people who are alive)
+				tp.role = "living-birth-date-says-nothing"
+				tp.living = true
+				tp.p.Events = append(tp.p.Events, Event{Tag: "BIRT", Date: pick(r, []string{"PRIVATE", "Living", "(unknown)", "unknown", "(still alive)", "?"}), Place: tp.place})
+				break
+			}
 			tp.role = "living-no-dates"
 			tp.living = true
 		case 6: // living with a burial but no death
